@@ -1,5 +1,6 @@
 """C08 - caller's data and ontology graphs are not modified unless inplace is set."""
 import itertools
+import os
 import warnings
 
 import rdflib
@@ -67,6 +68,12 @@ def make_data(kind, split=0):
     for i, t in enumerate(DATA):
         ctx = g.default_context if (i + split) % 3 == 0 else g.get_context(URIRef("urn:g%d" % ((i + split) % 3)))
         ctx.add(t)
+    # a container that has been through pySHACL before (e.g. what an earlier shacl_rules() returned): it already holds named graphs
+    # with the names pySHACL uses for what it mixes in and infers - they are the caller's graphs like any other
+    if split % 3 == 1:
+        g.get_context(URIRef("urn:pyshacl:inoculation")).add(ONT[0])
+    if split % 5 == 2:
+        g.get_context(URIRef("urn:pyshacl:inference")).add(DATA[0])
     return g
 
 
@@ -328,6 +335,52 @@ def main(tier, seed, replay=None):
                         after = snapshot(data)
                         snap_viol.append({"container": cont, "ontology": None, "inference": inf, "advanced": adv, "meta_shacl": meta_, "shapes": "inside the data graph (no shacl_graph argument)",
                                           "api": "validate", "fault_at_effect": None, "data_added": sorted(map(str, after - before))[:6], "data_removed": sorted(map(str, before - after))[:6], "ont_changed": False})
+    # owl:imports: with do_owl_imports=True the documents an ontology (or shapes graph) imports are loaded as well - into copies, the
+    # caller's graph objects keep their triples.  Imports are local files here (no network).
+    import shutil, tempfile
+    known_imports = "C08-owl-imports-loaded-into-callers-ontology-graph"
+    listed = {k.get("id") for k in F.load_known_findings(PROP)}
+    imp_dir = tempfile.mkdtemp(prefix="c08imp_", dir="/var/tmp")
+    imports_runs, imports_seen = 0, 0
+    try:
+        imp_file = os.path.join(imp_dir, "imported.ttl")
+        open(imp_file, "w").write("@prefix ex: <http://ex.org/> . @prefix rdfs: <http://www.w3.org/2000/01/rdf-schema#> .\nex:ImportedClass rdfs:subClassOf ex:P .\nex:imported a ex:ImportedClass .\n")
+        for cont in ("Graph", "Dataset"):
+            for ontk in ("Graph", "Dataset"):
+                for opts_ in ({}, {"inference": "rdfs"}, {"advanced": True}):
+                    for api in ("validate", "shacl_rules"):
+                        if api == "shacl_rules" and not opts_.get("advanced"):
+                            continue
+                        data, ont = make_data(cont, split=runs), make_ont(ontk)
+                        head = ont if ontk == "Graph" else ont.default_context
+                        head.add((URIRef("http://ex.org/ont"), RDF.type, OWL.Ontology))
+                        head.add((URIRef("http://ex.org/ont"), OWL.imports, URIRef("file://" + imp_file)))
+                        sg = shapes_graph(False, bool(opts_.get("advanced")))
+                        before = (snapshot(data), snapshot(ont))
+                        try:
+                            if api == "validate":
+                                pyshacl.validate(data, shacl_graph=sg, ont_graph=ont, do_owl_imports=True, **opts_)
+                            else:
+                                pyshacl.shacl_rules(data, shacl_graph=sg, ont_graph=ont, do_owl_imports=True)
+                        except Exception:
+                            pass
+                        runs += 1
+                        imports_runs += 1
+                        after = (snapshot(data), snapshot(ont))
+                        if after[0] != before[0]:
+                            snap_viol.append({"container": cont, "ontology": ontk + " with owl:imports of a local file", "do_owl_imports": True, "options": opts_, "api": api,
+                                              "data_added": sorted(map(str, after[0] - before[0]))[:6], "data_removed": sorted(map(str, before[0] - after[0]))[:6], "ont_changed": after[1] != before[1]})
+                        elif after[1] != before[1]:
+                            added = after[1] - before[1]
+                            only_imported = not (before[1] - after[1]) and all("Imported" in str(q) or "imported" in str(q) for q in added)
+                            if only_imported and known_imports in listed:
+                                imports_seen += 1
+                                rep.known_finding(known_imports, "validate()/shacl_rules() with do_owl_imports=True and the ontology given as a graph object: the imported documents' triples are loaded into the caller's ontology graph object (load_from_source: target_g = source)")
+                            else:
+                                snap_viol.append({"container": cont, "ontology": ontk + " with owl:imports of a local file", "do_owl_imports": True, "options": opts_, "api": api,
+                                                  "ont_added": sorted(map(str, added))[:6], "ont_removed": sorted(map(str, before[1] - after[1]))[:6], "ont_changed": True})
+    finally:
+        shutil.rmtree(imp_dir, ignore_errors=True)
     for d in snap_viol[:10]:
         d["what"] = "the caller's graph object holds different quads after the call (inplace was not requested)"
         rep.violation(d)
@@ -342,7 +395,7 @@ def main(tier, seed, replay=None):
     cov = F.proof_coverage(ob, ["translator/t1.py + translator/py2mini.py (fail-closed Python-ast -> PyMini)", "coq/Mini/PyMini.v semantics and callee summaries (clone_graph, inoculate, inoculate_dataset, _run_pre_inference, apply_rules, apply_functions)"])
     cov.update({
         "evaluations": len(bodies) + runs, "distinct_nontrivial": len({tuple(m[3]) for m in meta if m[3]}) + runs,
-        "rule": "(1) Tie A: for sampled valuations of the 1280-element domain x {validate, shacl_rules} x {no fault, fault at effect 0-3} the real Validator/RuleExpandRunner runs with recording wrappers around the white-listed callees and the recorded Clone/Write/Reg/Raised trace must equal the trace of the generated PyMini program; (2) the property on the real code: {Graph, Dataset, ConjunctiveGraph} x {no ontology, Graph, Dataset, empty Graph, empty Dataset} x {none, rdfs, owlrl, both} x advanced x iterate_rules x {validate, shacl_rules} x {normal return, failure injected after the k-th effect} x rule sets {triple + SPARQL rule, only SPARQL rules, only triple rules}, plus shapes kept inside the data graph (no shacl_graph argument) x meta_shacl on/off x inference x advanced, quad-level snapshot of the caller's objects before/after; non-trivial = a run in which a writer ran",
+        "rule": "(1) Tie A: for sampled valuations of the 1280-element domain x {validate, shacl_rules} x {no fault, fault at effect 0-3} the real Validator/RuleExpandRunner runs with recording wrappers around the white-listed callees and the recorded Clone/Write/Reg/Raised trace must equal the trace of the generated PyMini program; (2) the property on the real code: {Graph, Dataset, ConjunctiveGraph} x {no ontology, Graph, Dataset, empty Graph, empty Dataset} x {none, rdfs, owlrl, both} x advanced x iterate_rules x {validate, shacl_rules} x {normal return, failure injected after the k-th effect} x rule sets {triple + SPARQL rule, only SPARQL rules, only triple rules}, plus shapes kept inside the data graph (no shacl_graph argument) x meta_shacl on/off x inference x advanced, plus ontologies (Graph, Dataset) that owl:import a local file with do_owl_imports=True through both APIs, plus containers that already hold graphs named urn:pyshacl:inoculation / urn:pyshacl:inference; quad-level snapshot of the caller's objects before/after; non-trivial = a run in which a writer ran",
         "distribution": {"tie_a_traces": len(bodies), "tie_a_disagreements": len(failed), "snapshot_runs": runs, "snapshot_violations": len(snap_viol),
                          "distinct_traces": len({tuple(m[3]) for m in meta})},
         "samples": [{"api": m[0], "valuation": m[1], "fault": m[2], "recorded": m[3]} for m in meta[:3]],
